@@ -185,6 +185,18 @@ func (s *Sess) heldRead(b, k string, next []byte) {
 		return
 	}
 	s.Put(b, k, next, nil) // acknowledged while the first read is still open
+	// ... and so are a number of writes to other keys (a store that hands out its own pages instead of a
+	// copy gets to reuse them)
+	pad := make([]byte, 40<<10)
+	for i := range pad {
+		pad[i] = byte(i*31 + len(next))
+	}
+	for i := 0; i < 8; i++ {
+		do(s.h, Req{Method: "PUT", Path: "/" + pathEscape(b) + "/held-pad/" + strconv.Itoa(i), Body: pad})
+	}
+	for i := 0; i < 8; i++ {
+		do(s.h, Req{Method: "DELETE", Path: "/" + pathEscape(b) + "/held-pad/" + strconv.Itoa(i)})
+	}
 	got, rerr := readAllGuarded(o.Contents)
 	o.Contents.Close()
 	sum := md5.Sum(got)
